@@ -3,7 +3,7 @@
    messages, the map entries of one message in the iteration order of its map. *)
 From RP Require Import Lib.Base Lib.Sexp Lib.Strings Lib.TrimSpace Lib.FloatFmt Model.MsgOut Model.Flatten Model.EncOut
   Model.DecOut Spec.DenoteOut Spec.GrammarOut Proofs.GfxNum Proofs.OutStrings Proofs.OutEncLines Proofs.OutEncSys
-  Proofs.OutDecSkel Proofs.OutDecEvent Proofs.OutDecKV Proofs.OutDecSound.
+  Proofs.OutReader.
 From Coq Require Import String Permutation.
 Open Scope Z_scope.
 
@@ -448,3 +448,38 @@ Proof.
   exists ls. split; [|split; assumption]. unfold enc_out. rewrite E. cbn [bind]. rewrite (one_lines_wf ls W). reflexivity.
 Qed.
 End Msg.
+
+(* a payload that is one trimmed line is left alone by stripLineBreaks *)
+Lemma nolf_forallb s : has_lf s = false -> forallb (fun x => negb (x =? 10)) s = true.
+Proof.
+  unfold has_lf, contains_byte. induction s as [|c s IH]; intros H; [reflexivity|]. cbn [existsb] in H.
+  apply orb_false_iff in H. destruct H as [Hc Hs]. cbn [forallb]. rewrite Z.eqb_sym, Hc, (IH Hs). reflexivity.
+Qed.
+
+Theorem payload_fixed_point s : text_ok s = true -> trim_space s = s -> payload_ok strip_lb s = true.
+Proof.
+  intros Ht Htrim. unfold payload_ok. rewrite Ht, andb_true_r. apply beqb_eq.
+  unfold text_ok in Ht. apply negb_true_iff in Ht.
+  unfold strip_lb. rewrite (split_on_nosep 10 s (nolf_forallb s Ht)). cbn [map List.concat]. rewrite app_nil_r. exact Htrim.
+Qed.
+
+
+(* ---------------------------------------------------------------- witness *)
+Definition demo_msg : out_msg :=
+  mkMsg 2 [(7, 1); (300, 0); (4294967295, 65535)]
+    (Some (mkPI (str "SK_RCPV2") (str "123456") (str "Panel A") (str "v1.2.3") [] true 4 [str "10.0.0.1"; str "fe80::1"] 1
+                (Some [true; true; false; false; false; true; false; true; false; true; false; false; true])))
+    (Some (str "<svg><g/></svg>", str "{""HWc"":[]}")) (Some (str "{}")) None None None (Some 300) (Some true) (Some 3000) (Some 50)
+    (Some [str "192.168.10.99:54321"]) (Some (12, 0, 99, 4294967295)) None (Some (str "Hello = world"))
+    (Some 1) (Some (mkSS 17 1112014848 3212836864 1067030938 [1500; 600; -2147483648; 2147483647; 0; 1; -1; 42]
+                         [true; false; true; false; false; false; true; true]))
+    [Some (mkEv 5 0 (Some (mkBin true 4)) None None None None);
+     Some (mkEv 4294967295 0 None (Some (-2147483648)) None None None);
+     Some (mkEv 6 0 None None (Some (4294967295, 0)) None None);
+     Some (mkEv 7 0 None None None (Some (-1, 0)) None);
+     Some (mkEv 8 0 None None None None (Some 123))]
+    [Some (mkReg 0 (str "A1") 5); Some (mkReg 1 (str "12") 1); Some (mkReg 3 [] 4294967295)].
+
+Lemma demo_msg_representable : representable_outb strip_lb strip_lb_svg demo_msg = true.
+Proof. vm_compute. reflexivity. Qed.
+
